@@ -1,7 +1,9 @@
-(* Layer F: meta/src/optimizer/unroller.rs.  Bottom-up; `(1..num + 1)` is u32 arithmetic: with the maximal
-   count the addition overflows (panic with overflow checks; without them it wraps to an empty range and the
-   `.unwrap()` of the empty fold panics): None either way.  A count that yields no element (e{0}, e{,0},
-   e{m,0}) is the `.unwrap()` of an empty fold: None.  e+ is unrolled only without grammar-extras. *)
+(* Layer F: meta/src/optimizer/unroller.rs.  Bottom-up.  A count that yields no element (e{0}, e{,0}, e{m,0}) is the
+   `.unwrap()` of an empty fold: None.  e+ is unrolled only without grammar-extras.
+   ovf = true models the ranges as originally written, `(1..num + 1)` / `(1..min + 2)` in u32 arithmetic: with the
+   maximal count the addition overflows (panic with overflow checks; without them it wraps to an empty range and the
+   `.unwrap()` of the empty fold panics): None either way.  ovf = false models the inclusive ranges `(1..=num)` /
+   `(0..=min)` of the repaired unroller (fix: commit c169d99), which cannot overflow.                          *)
 From Coq Require Import List Arith NArith ZArith Bool.
 Import ListNotations.
 Require Import PV.Comb.PState PV.Peg.Ast PV.Opt.MapExpr.
@@ -9,12 +11,12 @@ Require Import PV.Comb.PState PV.Peg.Ast PV.Opt.MapExpr.
 Definition u32_max : N := 4294967295.
 Definition fits (n : N) : bool := (n <=? u32_max)%N.
 
-Definition unroll_fn (extras : bool) (e : expr) : option expr :=
+Definition unroll_fn (ovf extras : bool) (e : expr) : option expr :=
   match e with
-  | ERepExact _ n | ERepMax _ n | ERepMinMax _ _ n => if fits (n + 1) then unroll_node extras e else None
-  | ERepMin _ n => if fits (n + 2) then unroll_node extras e else None
+  | ERepExact _ n | ERepMax _ n | ERepMinMax _ _ n => if negb ovf || fits (n + 1) then unroll_node extras e else None
+  | ERepMin _ n => if negb ovf || fits (n + 2) then unroll_node extras e else None
   | _ => unroll_node extras e
   end.
 
-Definition unroll_expr (extras : bool) (e : expr) : option expr := map_bottom_up (unroll_fn extras) e.
-Definition unroll_rule (extras : bool) (r : rule) : option rule := with_expr r (unroll_expr extras (rexpr r)).
+Definition unroll_expr (ovf extras : bool) (e : expr) : option expr := map_bottom_up (unroll_fn ovf extras) e.
+Definition unroll_rule (ovf extras : bool) (r : rule) : option rule := with_expr r (unroll_expr ovf extras (rexpr r)).
